@@ -62,6 +62,7 @@ package limit
 //@   ensures[C20] sampled_once: ncalls("(*core.CommonMetricSampler).Sample") == 1 && callrecv("(*core.CommonMetricSampler).Sample", 0) == l.commonSampler && callarg("(*core.CommonMetricSampler).Sample", 0, 0) == rtt && callarg("(*core.CommonMetricSampler).Sample", 0, 1) == inFlight && callarg("(*core.CommonMetricSampler).Sample", 0, 2) == didDrop
 //@   safety[C04]
 //@   owns[C17]
+//@   assigns l.limit, all core.LimitChangeListener.delivered
 
 //@ func (*AIMDLimit).BackOffRatio
 //@   assigns nothing
@@ -206,6 +207,7 @@ package limit
 //@   ensures[C20] sampled_once: ncalls("(*core.CommonMetricSampler).Sample") == 1 && callrecv("(*core.CommonMetricSampler).Sample", 0) == l.commonSampler && callarg("(*core.CommonMetricSampler).Sample", 0, 0) == rtt && callarg("(*core.CommonMetricSampler).Sample", 0, 1) == inFlight && callarg("(*core.CommonMetricSampler).Sample", 0, 2) == didDrop
 //@   safety[C04]
 //@   owns[C17]
+//@   assigns l.estimatedLimit, l.probeCount, l.probeJitter, l.rttNoLoad, all measurements.MinimumMeasurement.value, all core.LimitChangeListener.delivered
 
 // ---------------------------------------------------------------------------------------------
 // Interface contract for a wrapped limit (windowed / traced wrappers, DefaultLimiter).
@@ -306,6 +308,7 @@ package limit
 //@   ensures[C20] sampled_once: ncalls("(*core.CommonMetricSampler).Sample") == 1 && callrecv("(*core.CommonMetricSampler).Sample", 0) == l.commonSampler && callarg("(*core.CommonMetricSampler).Sample", 0, 0) == rtt && callarg("(*core.CommonMetricSampler).Sample", 0, 1) == inFlight && callarg("(*core.CommonMetricSampler).Sample", 0, 2) == didDrop
 //@   safety[C04]
 //@   owns[C17]
+//@   assigns l.estimatedLimit, l.resetRTTCounter, all measurements.MinimumMeasurement.value, all core.LimitChangeListener.delivered
 
 // ---------------------------------------------------------------------------------------------
 // Gradient2
@@ -374,6 +377,7 @@ package limit
 //@   ensures[C20] sampled_once: ncalls("(*core.CommonMetricSampler).Sample") == 1 && callrecv("(*core.CommonMetricSampler).Sample", 0) == l.commonSampler && callarg("(*core.CommonMetricSampler).Sample", 0, 0) == rtt && callarg("(*core.CommonMetricSampler).Sample", 0, 1) == inFlight && callarg("(*core.CommonMetricSampler).Sample", 0, 2) == didDrop
 //@   safety[C04]
 //@   owns[C17]
+//@   assigns l.estimatedLimit, all measurements.SingleMeasurement.value, all measurements.ExponentialAverageMeasurement.value, all measurements.ExponentialAverageMeasurement.sum, all measurements.ExponentialAverageMeasurement.count, all measurements.ExponentialAverageMeasurement.lo, all measurements.ExponentialAverageMeasurement.hi, all core.LimitChangeListener.delivered
 
 // long-term average right after adding sample x (before the optional 0.9 decay), from the pre-state
 //@ define g2LongAfterAdd(l *limit.Gradient2Limit, x float64) float64 = ite(old(g2Long(l).count) < g2Long(l).warmupWindow, (old(g2Long(l).sum) + x) / float64(old(g2Long(l).count) + 1), old(g2Long(l).value) * (1.0 - emaFactor(g2Long(l).window)) + x * emaFactor(g2Long(l).window))
